@@ -35,7 +35,7 @@ def P_(groups, bounded=(), harness=None, trusted=SCHED_TRUSTED, assumptions=SCHE
 
 
 PROPS = {
-    "C01": P_(["values", "dagproto", "nodeexec", "nodebuild", "retwrap", "threads", "decorators"], ["programs", "programs_flat", "reference_matrix", "operator_table", "id_strings"], claim="other",
+    "C01": P_(["values", "dagproto", "nodeexec", "nodebuild", "retwrap", "threads", "decorators"], ["programs", "programs_flat", "reference_matrix", "operator_table", "id_strings", "default_identity"], claim="other",
               explanation="Mixed: the value-level functions between the recorded node table and the returned value are proved against their contracts; that the recorded table is the meaning of the describing function (tracing) is only covered by the bounded program-level stand-in."),
     "C02": P_(["scheduler", "values", "nodeexec", "graphbuild", "nodebuild"], ["reference_matrix", "graph_build", "conformance"], dict(SW)),
     "C03": P_(["scheduler", "values", "digraph", "dagproto", "graphbuild", "nodebuild", "subdag"], ["programs_flat", "selection", "graph_build", "reference_matrix", "id_strings"], dict(SW, active=True)),
@@ -57,6 +57,6 @@ PROPS = {
     "C18": P_(["dagproto", "dagadmin"], ["cache"]),
     "C19": P_(["digraph", "compose", "graphbuild", "dagadmin"], ["compose", "conformance"], claim="other",
               explanation="Mixed: compose() and its recursive closure _add_missing_deps are proved against contracts taken from the property (what is copied = what the outputs need, stopping at the inputs; every positional / keyword / activation reference to an input is rewritten to the new argument holder with its key path and no other reference changes; every reference of a copied node is a key of the new table; inputs / outputs / results handed to the new DAG; the original untouched). Assumed there: the holder ids made by make_axn_id are fresh (string-level), the input aliases are distinct nodes. The VALUE computed by the composed DAG then follows from C01's contracts; it is compared with 'substitute the inputs in the original description' only by the bounded compose stand-in. One known finding (KF-C19-overlap)."),
-    "C20": P_(["retwrap", "threads", "subdag", "nodebuild"], ["programs", "reference_matrix", "id_strings"], claim="other",
+    "C20": P_(["retwrap", "threads", "subdag", "nodebuild"], ["programs", "reference_matrix", "id_strings", "default_identity"], claim="other",
               explanation="Mixed: the description branch of DAG.__call__ (stubs for supplied arguments, copy of constants / defaults, re-creation of every inner node with prefixed references and key paths, activation rules, return shape, prefix stack), construct_subdag_arg_uxns, LazyExecNode.__call__, the make_* helpers and wrap_in_uxns are proved against contracts taken from the property; ids are an uninterpreted sort, so that prefixed ids / holder ids are fresh and never capture outer ids is ASSUMED there (string-level) and exercised only by the bounded program-level stand-ins (KF-C20-twice is the case where it is false)."),
 }
